@@ -38,6 +38,73 @@ def run(repo: Repo, chk: Check) -> None:
     accelerator(repo, chk)
     merge(repo, chk)
     region_operands(repo, chk)
+    valid_mapping_rule(repo, chk)
+
+
+def valid_mapping_rule(repo: Repo, chk: Check) -> None:
+    """valid_mapping is the oracle of the search: it accepts a mux assignment when every data operand of every choose / yield of the concrete kernel is,
+    through the muxes, the SAME source as in the abstract graph - position by position. A position accepted because its routed source is merely one of
+    the wanted sources (`routed in wanted`) lets two positions take the same source: op(a, a) is accepted for op(a, b)"""
+    chk.rule("C20.valid-mapping", "valid_mapping pairs concrete and abstract data operands by position (strict zip) and moves on to the next position only under "
+             "equality of the concrete operand's source and the followed abstract operand", floor=2)
+    f, fl = flow_of(repo, chk, DECODE, "valid_mapping")
+    conts = [s for s in fl.stmts(ast.Continue) if s.reachable]
+    rejects = [s for s in fl.stmts(ast.Return) if s.reachable and s.loops and isinstance(s.node.value, ast.Constant) and s.node.value.value is False]
+    pair_loops: list[ast.For] = []
+    for s in rejects:
+        for l in s.loops:
+            if isinstance(l, ast.For) and isinstance(l.iter, ast.Call) and callee_name(l.iter) == "zip" and norm.contains(l.iter, T("$a.data_operands")) \
+                    and isinstance(l.target, ast.Tuple) and len(l.target.elts) == 2 and all(isinstance(e, ast.Name) for e in l.target.elts) and l not in pair_loops:
+                pair_loops.append(l)
+    if len(pair_loops) != 1:
+        raise AnalysisError(f"{f.where}: the loop pairing concrete and abstract data operands (with a rejecting `return False`) was not found")
+    lp = pair_loops[0]
+    strict = any(k.arg == "strict" and isinstance(k.value, ast.Constant) and k.value.value is True for k in lp.iter.keywords)  # type: ignore[union-attr]
+    chk.result(strict and len(lp.iter.args) == 2, "C20.valid-mapping", f"{f.key}:pairing", f"{f.module.relpath}:{lp.lineno}",  # type: ignore[union-attr]
+               "operands are paired by position, lengths must agree",
+               "the operand lists are not paired with a strict zip: a kernel with fewer operands is accepted on a prefix")
+    cv, av = lp.target.elts[0].id, lp.target.elts[1].id  # type: ignore[union-attr]
+    head = next((x for x in fl.stmts(ast.For) if x.node is lp), None)
+    base = {fa.text for alt in head.state.alts for fa in alt.facts.values()} | set(head.fact_texts) if head is not None else set()
+    EQ = ["$x == _follow_operand($a, $m)", "_follow_operand($a, $m) == $x"]
+    NE = ["$x != _follow_operand($a, $m)", "_follow_operand($a, $m) != $x"]
+    n_ = 0
+    # a position is rejected WHENEVER its source differs from the followed abstract operand: nothing else may be required for the rejection
+    for s in rejects:
+        if not any(l is lp for l in s.loops):
+            continue
+        n_ += 1
+        key = f"{f.key}:reject#{n_}"
+        member: list = []
+        for alt in s.state.alts:  # the source may be spelled differently per path class (`source = opnd.index` / `= opnd.owner.name_prop.data`)
+            own = [fa for fa in [*alt.facts.values(), *s.extra] if fa.text not in base]
+            ne = [fa for fa in own if fa.kind == "atom" and norm.any_match(NE, fa.expr, {"a": av}) is not None]
+            if not ne:
+                raise AnalysisError(f"{s.where()}: a position is rejected under conditions this rule does not read: {[fa.text[:60] for fa in own][-3:]}")
+            extra = [fa for fa in own if fa not in ne and not (fa.kind == "atom" and any(
+                isinstance(c_, ast.Call) and callee_name(c_) in ("isinstance", "isa") and c_.args and cv in {n.id for n in ast.walk(c_.args[0]) if isinstance(n, ast.Name)}
+                for c_ in ast.walk(fa.expr)))]
+            mem = [fa for fa in extra if fa.kind == "atom" and any(isinstance(c_, ast.Compare) and any(isinstance(o_, (ast.In, ast.NotIn)) for o_ in c_.ops) for c_ in ast.walk(fa.expr))]
+            if extra and not mem:
+                raise AnalysisError(f"{s.where()}: the rejection of a position also requires {[fa.text[:60] for fa in extra][:2]}, which this rule does not read")
+            member += mem
+        chk.result(not member, "C20.valid-mapping", key, s.where(), "a position whose source differs from the followed abstract operand is rejected",
+                   f"a differing position is rejected only if also `{member[0].text[:90] if member else ''}`: membership in the list of wanted sources, tested per position, lets two "
+                   "positions be fed from the same source - a mux assignment computing op(a, a) is accepted for a kernel op(a, b) and the search returns it first", s.fact_texts)
+    if n_ == 0:
+        raise AnalysisError(f"{f.where}: no rejecting return in the operand loop")
+    # where a position is accepted explicitly (`continue`), it is under the equality
+    k_ = 0
+    for s in conts:
+        if not any(l is lp for l in s.loops):
+            continue
+        k_ += 1
+        eq = all(any(fa.kind == "atom" and norm.any_match(EQ, fa.expr, {"a": av}) is not None for fa in [*alt.facts.values(), *s.extra]) for alt in s.state.alts)
+        disj = any(fa.kind == "atom" and isinstance(norm.primary(fa.expr), ast.BoolOp) for alt in s.state.alts for fa in [*alt.facts.values(), *s.extra] if fa.text not in base)
+        if not eq and not disj:
+            raise AnalysisError(f"{s.where()}: a position is accepted under conditions this rule does not read: {s.fact_texts[-3:]}")
+        chk.result(bool(eq), "C20.valid-mapping", f"{f.key}:accept#{k_}", s.where(), "a position is accepted under equality with the followed abstract operand",
+                   "a position is accepted under a disjunction, not under equality of its source and the followed abstract operand", s.fact_texts)
 
 
 def region_operands(repo: Repo, chk: Check) -> None:
